@@ -1387,8 +1387,347 @@ fn reuse_case(i: usize, small: bool, rng: &mut Rng, rep: &mut Report) {
                          "first_fit_max_iter": first_budget, "first_fit_iterations": it1, "final_fit_iterations": it2, "setters": setters}));
 }
 
+
+// ---------------------------------------------------------------------------------------------
+// non-integer responses (stream 4)
+//
+// "The reported deviance is the family's deviance at the fitted means": the (quasi-)Poisson and gamma
+// deviances are defined for every non-negative (positive) real response, and the two standard uses of
+// the quasi family have such responses: rates y = events / exposure with prior weights = exposure (the
+// textbook equivalent of counts with offset ln(exposure)), and count-like data on another scale
+// (φ·Poisson(μ/φ): E y = μ, Var y = φ μ exactly, under-dispersed for φ < 1, with values strictly between
+// 0 and 1). Integer counts never reach the part of the unit deviance between 0 and 1.
+// Oracle: the whole single-fit oracle (textbook unit deviance) under regimes `fractional:*`, and three
+// textbook equivalences, each against a fit whose responses are ordinary:
+//   rate y=c/e, weights e            ≡ counts c, offset +ln e : same β, same deviance, same I (so same
+//                                      unit-dispersion SE; for the quasi family SE/sqrt(dispersion))
+//   quasi-Poisson on y = φ z, α       ≡ on the counts z, α/φ   : slopes equal, intercept + ln φ, deviance × φ,
+//                                      dispersion × φ, SE equal
+//   gamma / exponential on y = s z   ≡ on z                   : slopes equal, intercept + ln s, deviance,
+//                                      dispersion and SE equal
+// The two fits of a pair converge separately, so they are compared within the sum of their convergence-scaled limits.
+
+/// move the violations of a scratch report into `rep` under one regime of the new family
+fn merge_relabel(rep: &mut Report, mut scratch: Report, regime: &str) {
+    let vs = std::mem::take(&mut scratch.violations);
+    rep.merge(scratch);
+    for (_, mut v) in vs {
+        if let Value::Object(m) = &mut v.first {
+            m.insert("single_fit_regime".into(), json!(v.regime));
+        }
+        v.regime = regime.to_string();
+        let key = format!("{}|{}", v.assertion, v.regime);
+        match rep.violations.get_mut(&key) {
+            Some(e) => e.count += v.count,
+            None => {
+                rep.violations.insert(key, v);
+            }
+        }
+    }
+}
+
+struct Fitted {
+    glm: GLM,
+    coef: Vec<f64>,
+    ev: Eval,
+    lims: Limits,
+}
+
+/// fit `pr` on a fresh model and run the single-fit oracle; its violations are signed `|regime` if given
+fn fit_and_check(rep: &mut Report, pr: &Prob, relabel: Option<&str>) -> Option<Fitted> {
+    let fit = lib_fit(pr, MAX_ITER);
+    let fam = pr.fam.name();
+    let regime = relabel.unwrap_or(fam);
+    match (fit.outcome, fit.glm) {
+        (Err(msg), _) => {
+            rep.check("C06.fit.no_panic", regime, false, || json!({"problem": pr.json(), "panic": msg}));
+            None
+        }
+        (Ok(false), _) => {
+            rep.check("C06.fit.no_panic", regime, true, || json!(null));
+            rep.seen("fractional:fit-returned-err", 1);
+            None
+        }
+        (Ok(true), Some(glm)) => {
+            rep.check("C06.fit.no_panic", regime, true, || json!(null));
+            let mut scratch = Report::new();
+            scratch.case_seed = rep.case_seed;
+            let r = check_success(&mut scratch, pr, &glm, fit.iters);
+            match relabel {
+                Some(rg) => merge_relabel(rep, scratch, rg),
+                None => rep.merge(scratch),
+            }
+            r.map(|(coef, ev, lims)| Fitted { glm, coef, ev, lims })
+        }
+        _ => None,
+    }
+}
+
+fn stderr_of(g: &GLM) -> Vec<f64> {
+    guard(|| g.coef_standard_error().map(|v| v.to_vec()).unwrap_or_default()).unwrap_or_default()
+}
+
+/// `a` (the fit with fractional responses) against its ordinary twin `b`: β_a = β_b + shift·e₀,
+/// D_a = dev_factor·D_b, SE_a/sqrt(φ_a)·se_norm = SE_b/sqrt(φ_b)·se_norm (se_norm: compare SE / sqrt(dispersion)
+/// instead of SE, for pairs whose residual degrees of freedom are counted differently)
+#[allow(clippy::too_many_arguments)]
+fn compare_equivalent(rep: &mut Report, regime: &str, relation: &str, pa: &Prob, a: &Fitted, pb: &Prob, b: &Fitted, shift: f64, dev_factor: f64, se_normalised: bool) {
+    rep.seen(&format!("{}:compared", regime), 1);
+    let p = pa.p;
+    let ctx = |extra: Value| json!({"relation": relation, "problem_fractional": pa.json(), "problem_twin": pb.json(), "coef_fractional": jf(&a.coef), "coef_twin": jf(&b.coef), "detail": extra});
+    let lim = a.lims.coef + b.lims.coef + 8.0 * EPS * shift.abs();
+    let mut err = 0.0f64;
+    for j in 0..p {
+        let e = (a.coef[j] - (b.coef[j] + if j == 0 { shift } else { 0.0 })).abs();
+        err = if e.is_nan() { f64::INFINITY } else { err.max(e) };
+    }
+    rep.note_max("worst_ratio.equivalence_coef_over_limit", err / lim);
+    rep.check("C06.equivalence.coef", regime, err <= lim, || ctx(json!({"intercept_shift_expected": shift, "max_abs_diff": jnum(err), "limit": lim})));
+    let (da, db) = (a.glm.deviance().unwrap_or(f64::NAN), b.glm.deviance().unwrap_or(f64::NAN));
+    let dl = 3.0 * (a.lims.dev * (1.0f64).max(1.0 / a.ev.dev.max(f64::MIN_POSITIVE)) + b.lims.dev * (1.0f64).max(1.0 / b.ev.dev.max(f64::MIN_POSITIVE)));
+    let e = rel_err(da, dev_factor * db);
+    rep.note_max("worst_ratio.equivalence_deviance_over_limit", e / dl);
+    rep.check("C06.equivalence.deviance", regime, e <= dl, || ctx(json!({"deviance_fractional": jnum(da), "deviance_twin": jnum(db), "expected_factor": dev_factor, "relative_error": jnum(e), "relative_limit": dl})));
+    let (sa, sb) = (stderr_of(&a.glm), stderr_of(&b.glm));
+    if sa.len() == p && sb.len() == p {
+        let (fa, fb) = if se_normalised { (a.glm.dispersion().unwrap_or(f64::NAN).sqrt(), b.glm.dispersion().unwrap_or(f64::NAN).sqrt()) } else { (1.0, 1.0) };
+        let sl = 2.0 * (a.lims.cov + b.lims.cov) + if pa.fam.has_dispersion() && !se_normalised { dl } else { 0.0 };
+        let worst = (0..p).map(|j| rel_err(sa[j] / fa, sb[j] / fb)).fold(0.0, f64::max);
+        rep.note_max("worst_ratio.equivalence_stderr_over_limit", worst / sl);
+        rep.check("C06.equivalence.stderr", regime, worst <= sl, || ctx(json!({"stderr_fractional": jf(&sa), "stderr_twin": jf(&sb), "divided_by_sqrt_dispersion": se_normalised, "worst_relative_diff": jnum(worst), "limit": sl})));
+    } else {
+        rep.check("C06.accessors.available", regime, false, || ctx(json!({"stderr_lengths": [sa.len(), sb.len()]})));
+    }
+    if !se_normalised && pa.fam.has_dispersion() {
+        let (fa, fb) = (a.glm.dispersion().unwrap_or(f64::NAN), b.glm.dispersion().unwrap_or(f64::NAN));
+        rep.check("C06.equivalence.dispersion", regime, rel_err(fa, dev_factor * fb) <= dl + 8.0 * EPS, || ctx(json!({"dispersion_fractional": jnum(fa), "dispersion_twin": jnum(fb), "expected_factor": dev_factor, "relative_limit": dl})));
+    }
+}
+
+const FRACTIONAL: [&str; 5] = ["rate:poisson", "rate:quasipoisson", "scaled-counts:quasipoisson", "small-positive:gamma", "small-positive:exponential"];
+
+fn fractional_case(i: usize, small: bool, rng: &mut Rng, rep: &mut Report) {
+    let kind = FRACTIONAL[i % 5];
+    let alpha = ALPHAS[(i / 5) % 4];
+    let tol = TOLS[(i / 20) % 4];
+    let regime = format!("fractional:{}", kind);
+    let fam = match kind {
+        "rate:poisson" => Fam::Poisson,
+        "small-positive:gamma" => Fam::Gamma,
+        "small-positive:exponential" => Fam::Exponential,
+        _ => Fam::QuasiPoisson,
+    };
+    // ---- the pair (fractional problem, ordinary twin)
+    let mut pair: Option<(Prob, Prob, f64, f64, bool, &'static str)> = None;
+    for _attempt in 0..6 {
+        let n = if small { rng.usize(20, 24) } else { rng.log_range(20.0, 300.99).floor() as usize };
+        let p = if small { 2 } else { rng.usize(1, 5) };
+        let design = if p == 1 { "intercept-only" } else { *rng.choose(&["normal", "polynomial", "indicator"]) };
+        let Some(x) = gen_design(rng, design, n, p) else { continue };
+        let mut beta: Vec<f64> = (0..p).map(|_| rng.range(-1.5, 1.5)).collect();
+        let nb = beta[1..].iter().map(|b| b * b).sum::<f64>().sqrt();
+        if nb > 1.5 {
+            let r = 1.5 * rng.range(0.3, 1.0) / nb;
+            beta[1..].iter_mut().for_each(|b| *b *= r);
+        }
+        let off: Option<Vec<f64>> = if rng.chance(0.4) { Some((0..n).map(|_| rng.range(-0.5, 0.5)).collect()) } else { None };
+        let lin = |beta: &[f64]| -> Vec<f64> { (0..n).map(|r| off.as_ref().map(|o| o[r]).unwrap_or(0.0) + (0..p).map(|j| x[r * p + j] * beta[j]).sum::<f64>()).collect() };
+        let built = match kind {
+            "rate:poisson" | "rate:quasipoisson" => {
+                // events per unit of exposure; mean rates around and below one
+                beta[0] = rng.range(-1.5, 0.5);
+                let eta = lin(&beta);
+                let integer = rng.chance(0.67);
+                let e: Vec<f64> = (0..n).map(|_| if integer { rng.int(1, 12) as f64 } else { rng.range(0.5, 8.0) }).collect();
+                let k = rng.range(2.0, 10.0);
+                let counts: Vec<f64> = (0..n).map(|r| { let g = if fam == Fam::QuasiPoisson { rng.gamma(k) / k } else { 1.0 }; rng.poisson(e[r] * eta[r].exp() * g) }).collect();
+                let y: Vec<f64> = (0..n).map(|r| counts[r] / e[r]).collect();
+                let off_counts: Vec<f64> = (0..n).map(|r| off.as_ref().map(|o| o[r]).unwrap_or(0.0) + e[r].ln()).collect();
+                let wkind = if integer { "integer" } else { "random" };
+                let a = Prob { fam, n, p, x: x.clone(), y, w: Some(e), off: off.clone(), alpha, tol, design, wkind };
+                let b = Prob { fam, n, p, x: x.clone(), y: counts, w: None, off: Some(off_counts), alpha, tol, design, wkind: "none" };
+                // residual degrees of freedom are counted from the weight sum in one and from the rows in the other
+                (a, b, 0.0, 1.0, fam.has_dispersion(), "rate y = c/e with weights e  ==  counts c with offset + ln e")
+            }
+            "scaled-counts:quasipoisson" => {
+                beta[0] = rng.range(-1.0, 1.5);
+                let eta = lin(&beta);
+                let phi = if rng.chance(0.75) { rng.log_range(0.05, 0.9) } else { rng.range(1.1, 3.0) };
+                let z: Vec<f64> = eta.iter().map(|e| rng.poisson(e.exp() / phi)).collect();
+                let y: Vec<f64> = z.iter().map(|v| phi * v).collect();
+                let wkind = *rng.choose(&["none", "none", "integer", "random"]);
+                let w = draw_weights(rng, wkind, n);
+                let a = Prob { fam, n, p, x: x.clone(), y, w: w.clone(), off: off.clone(), alpha, tol, design, wkind };
+                // the quasi-likelihood of y = phi z is phi times that of z, the ridge term is not scaled: strength alpha / phi for the twin
+                let b = Prob { fam, n, p, x: x.clone(), y: z, w, off: off.clone(), alpha: alpha / phi, tol, design, wkind };
+                (a, b, phi.ln(), phi, false, "quasi-Poisson on y = phi*z with strength alpha  ==  on the counts z with strength alpha/phi: intercept + ln phi, deviance and dispersion * phi, same standard errors")
+            }
+            _ => {
+                // positive responses far below one
+                beta[0] = rng.range(-6.0, -1.5);
+                let eta = lin(&beta);
+                let y = simulate(rng, fam, &eta);
+                let s = (2.0f64).powi(rng.int(4, 14) as i32);
+                let z: Vec<f64> = y.iter().map(|v| v * s).collect();
+                let wkind = *rng.choose(&["none", "none", "integer", "random"]);
+                let w = draw_weights(rng, wkind, n);
+                let a = Prob { fam, n, p, x: x.clone(), y, w: w.clone(), off: off.clone(), alpha, tol, design, wkind };
+                let b = Prob { fam, n, p, x: x.clone(), y: z, w, off: off.clone(), alpha, tol, design, wkind };
+                (a, b, -s.ln(), 1.0, false, "gamma / exponential on y  ==  on s*y (s a power of two): intercept - ln s, same deviance, dispersion and standard errors")
+            }
+        };
+        if mle_established(&built.0) && mle_established(&built.1) {
+            pair = Some(built);
+            break;
+        }
+    }
+    let Some((pa, pb, shift, dev_factor, se_norm, relation)) = pair else {
+        rep.seen("excluded:no-mle-established-by-reference-fit", 1);
+        return;
+    };
+    rep.case(&regime);
+    let below_one = pa.y.iter().filter(|v| **v > 0.0 && **v < 1.0).count();
+    let non_integer = pa.y.iter().filter(|v| v.fract() != 0.0).count();
+    if below_one > 0 {
+        rep.seen("fractional:responses-in-(0,1)", 1);
+    }
+    rep.seen(&format!("fractional:w={}", pa.wkind), 1);
+    rep.seen(&format!("fractional:alpha={}", alpha), 1);
+    rep.distinct(Hasher::new().s(&regime).u(pa.n as u64).u(pa.p as u64).f(alpha).f(tol).s(pa.wkind).fs(&pa.y[..4]).finish(), pa.p >= 2 && non_integer > 0);
+    let a = fit_and_check(rep, &pa, Some(&regime));
+    // the twin is an ordinary problem of the main workload's kind: its findings keep their single-fit signature
+    let b = fit_and_check(rep, &pb, None);
+    if let (Some(a), Some(b)) = (&a, &b) {
+        compare_equivalent(rep, &regime, relation, &pa, a, &pb, b, shift, dev_factor, se_norm);
+        rep.sample(|| json!({"family": fam.name(), "kind": kind, "n": pa.n, "p": pa.p, "alpha": alpha, "tolerance": tol, "weights": pa.wkind, "responses_in_(0,1)": below_one, "non_integer_responses": non_integer,
+                             "deviance_fractional": jnum(a.glm.deviance().unwrap_or(f64::NAN)), "deviance_twin": jnum(b.glm.deviance().unwrap_or(f64::NAN)), "expected_factor": dev_factor}));
+    }
+}
+
+// ---------------------------------------------------------------------------------------------
+// configuration routes (stream 5)
+//
+// "for the given design, weights and offsets ... with the configured strength": `family`, `alpha`,
+// `tolerance` and `weights` are public fields of `GLM` next to the setters `set_penalty`, `set_tolerance`,
+// `set_weights`; a model is also `Clone`. Every route the public API offers to the same configuration must
+// give the same fit and the same inference. Each route is judged like an object history: the whole
+// single-fit oracle on the route's object, and a comparison with the twin configured by the setters alone
+// (`judge_reuse`: what only the route's object fails is signed `assertion|route:*`).
+
+const ROUTES: [&str; 6] = ["route:public-fields", "route:fields-over-setters", "route:setters-over-fields", "route:family-field", "route:clone", "route:fields-between-fits"];
+
+/// a configuration that differs from `pr`'s in everything a route may overwrite (same shapes)
+fn other_config(rng: &mut Rng, pr: &Prob) -> (f64, f64, Option<Vec<f64>>) {
+    let alpha = *rng.choose(&ALPHAS.iter().copied().filter(|a| *a != pr.alpha).collect::<Vec<_>>());
+    let tol = *rng.choose(&TOLS.iter().copied().filter(|t| *t != pr.tol).collect::<Vec<_>>());
+    // other weights of the same length with another sum; also when the final configuration has none
+    let w: Vec<f64> = if rng.bool() { (0..pr.n).map(|_| rng.int(2, 6) as f64).collect() } else { (0..pr.n).map(|_| rng.range(1.5, 4.0)).collect() };
+    (alpha, tol, if pr.w.is_some() || rng.chance(0.7) { Some(w) } else { None })
+}
+
+fn route_case(i: usize, small: bool, rng: &mut Rng, rep: &mut Report) {
+    let route = ROUTES[i % ROUTES.len()];
+    let q = i / ROUTES.len();
+    let fam = FAMS[q % 6];
+    let alpha = ALPHAS[(q / 6) % 4];
+    let tol = TOLS[rng.usize(0, 3)];
+    // weights are what a route is most likely to lose: imposed in two thirds of the cases
+    let force_w = [Some("integer"), Some("random"), None][(q % 6 + q / 6) % 3];
+    let pr = match gen_problem_opt(rng, fam, alpha, tol, small, force_w, None) {
+        Some(pr) => pr,
+        None => {
+            rep.seen("excluded:no-mle-established-by-reference-fit", 1);
+            return;
+        }
+    };
+    let (oa, ot, ow) = other_config(rng, &pr);
+    let other_fam = FAMS[(q % 6 + rng.usize(1, 5)) % 6];
+    let mut steps: Vec<&'static str> = Vec::new();
+    let mut first: Option<(Result<bool, String>, u64)> = None;
+    let built = guard(|| {
+        let mut glm = GLM::new(if route == "route:family-field" { other_fam.lib() } else { pr.fam.lib() });
+        let by_setters = |glm: &mut GLM, a: f64, t: f64, w: &Option<Vec<f64>>, steps: &mut Vec<&'static str>| {
+            glm.set_penalty(a).set_tolerance(t);
+            steps.push("set_penalty");
+            steps.push("set_tolerance");
+            if let Some(w) = w {
+                glm.set_weights(w);
+                steps.push("set_weights");
+            }
+        };
+        let by_fields = |glm: &mut GLM, a: f64, t: f64, w: &Option<Vec<f64>>, steps: &mut Vec<&'static str>| {
+            glm.alpha = a;
+            glm.tolerance = t;
+            glm.weights = w.clone();
+            steps.push("alpha =");
+            steps.push("tolerance =");
+            steps.push(if w.is_some() { "weights = Some(..)" } else { "weights = None" });
+        };
+        match route {
+            "route:public-fields" => by_fields(&mut glm, pr.alpha, pr.tol, &pr.w, &mut steps),
+            "route:fields-over-setters" => {
+                by_setters(&mut glm, oa, ot, &ow, &mut steps);
+                by_fields(&mut glm, pr.alpha, pr.tol, &pr.w, &mut steps);
+            }
+            "route:setters-over-fields" => {
+                by_fields(&mut glm, oa, ot, &ow, &mut steps);
+                by_setters(&mut glm, pr.alpha, pr.tol, &pr.w, &mut steps);
+                if pr.w.is_none() {
+                    glm.weights = None; // there is no setter that removes weights
+                    steps.push("weights = None");
+                }
+            }
+            "route:family-field" => {
+                by_setters(&mut glm, pr.alpha, pr.tol, &pr.w, &mut steps);
+                glm.family = pr.fam.lib();
+                steps.push("family =");
+            }
+            "route:clone" => by_setters(&mut glm, pr.alpha, pr.tol, &pr.w, &mut steps),
+            _ => {
+                // a first fit under another configuration (through the setters), then the fields are re-assigned
+                by_setters(&mut glm, oa, ot, &ow, &mut steps);
+            }
+        }
+        if let Some(o) = &pr.off {
+            glm.set_offset(o);
+            steps.push("set_offset");
+        }
+        if route == "route:clone" {
+            let c = glm.clone();
+            steps.push("clone()");
+            return c;
+        }
+        if route == "route:fields-between-fits" {
+            first = Some(fit_on(&mut glm, &pr, MAX_ITER));
+            steps.push("fit");
+            by_fields(&mut glm, pr.alpha, pr.tol, &pr.w, &mut steps);
+        }
+        glm
+    });
+    let mut glm = match built {
+        Ok(g) => g,
+        Err(msg) => {
+            rep.check("C06.fit.no_panic", route, false, || json!({"problem": pr.json(), "panic": msg, "note": "while configuring the model", "steps": steps}));
+            return;
+        }
+    };
+    if let Some((Err(msg), _)) = &first {
+        // the first fit ran under the other configuration; a panic there is a single-fit matter
+        rep.check("C06.fit.no_panic", fam.name(), false, || json!({"problem": pr.json(), "alpha": oa, "tolerance": ot, "weights": ow.as_ref().map(|w| jf(w)), "panic": msg}));
+        return;
+    }
+    let (r, it) = fit_on(&mut glm, &pr, MAX_ITER);
+    let history = || {
+        json!({"configuration_route": route, "steps_before_final_fit": steps, "other_configuration_overwritten": {"alpha": oa, "tolerance": ot, "weights": ow.as_ref().map(|w| jf(w))},
+               "family_at_construction": if route == "route:family-field" { other_fam.name() } else { pr.fam.name() }, "twin": "GLM::new(family) configured by set_penalty / set_tolerance / set_weights / set_offset only"})
+    };
+    rep.seen(&format!("route:w={}", pr.wkind), 1);
+    rep.seen(&format!("route:{}", fam.name()), 1);
+    judge_reuse(rep, route, &route[6..], &pr, &glm, r, it, &history);
+}
+
 pub fn run(cfg: &Cfg, rep: &mut Report) {
-    rep.rule = "case i: family = i mod 6, alpha = {0,0.1,1,10}[(i/6) mod 4], tol in {1e-5,1e-8,1e-10,1e-14}; n log-uniform in 20..500 (first 96 cases outside lite mode: n in 20..24, p = 2, so that replay records are small), p in 1..6 columns incl. intercept, design in {standardised normal, raw powers of t in [-1,1], 0/1 indicators mixed with normal}, weights {none, U(0.5,3), integer 1..3 (also fitted as replicated rows)}, offsets {none, U(-0.5,0.5)}; slopes in the ball of radius 1.5, responses simulated by the harness's own samplers (quasi-Poisson: gamma-mixed Poisson); half of the cases refitted on permuted rows; max_iter = 300. Then directed cases: max_iter in {1,2,3} and perfectly separable logistic data. Then object-reuse histories (case i: mode = i mod 9, family = (i/9) mod 6, alpha by (i/54) mod 4, weights imposed in 2/3 of the cases): one model object is fitted with max_iter in {1,2,3} (Err) and retried with max_iter = 300, as is or after set_tolerance; or fitted with max_iter = 300 and then refitted on new data of the same length (keeping its weights/offsets), on data with another n and p, after set_weights, after set_offset with new data, after set_penalty or set_tolerance; or set_coef on a new model and then fitted; the final fit gets the whole single-fit oracle and is compared with a fresh twin. non-trivial = p >= 2 and >= 2 Fisher iterations observed through the glm.iter hook; distinct by (family, n, p, alpha, tol, weights, design, offsets, first responses)".into();
+    rep.rule = "case i: family = i mod 6, alpha = {0,0.1,1,10}[(i/6) mod 4], tol in {1e-5,1e-8,1e-10,1e-14}; n log-uniform in 20..500 (first 96 cases outside lite mode: n in 20..24, p = 2, so that replay records are small), p in 1..6 columns incl. intercept, design in {standardised normal, raw powers of t in [-1,1], 0/1 indicators mixed with normal}, weights {none, U(0.5,3), integer 1..3 (also fitted as replicated rows)}, offsets {none, U(-0.5,0.5)}; slopes in the ball of radius 1.5, responses simulated by the harness's own samplers (quasi-Poisson: gamma-mixed Poisson); half of the cases refitted on permuted rows; max_iter = 300. Then directed cases: max_iter in {1,2,3} and perfectly separable logistic data. Then object-reuse histories (case i: mode = i mod 9, family = (i/9) mod 6, alpha by (i/54) mod 4, weights imposed in 2/3 of the cases): one model object is fitted with max_iter in {1,2,3} (Err) and retried with max_iter = 300, as is or after set_tolerance; or fitted with max_iter = 300 and then refitted on new data of the same length (keeping its weights/offsets), on data with another n and p, after set_weights, after set_offset with new data, after set_penalty or set_tolerance; or set_coef on a new model and then fitted; the final fit gets the whole single-fit oracle and is compared with a fresh twin. Then non-integer responses (case i: kind = i mod 5 of {Poisson rates c/e with weights e (integer 1..12 or U(0.5,8)), quasi-Poisson rates, quasi-Poisson phi*Poisson(mu/phi) with phi in 0.05..0.9 or 1.1..3, gamma and exponential responses with intercept in -6..-1.5}, alpha by (i/5) mod 4, tol by (i/20) mod 4): single-fit oracle plus the equivalence with the ordinary twin (counts with offset ln e; the counts z = y/phi; the responses scaled by a power of two). Then configuration routes (case i: route = i mod 6 of {public fields, fields over setters, setters over fields, family field, clone, fields re-assigned between two fits}, family = (i/6) mod 6, weights imposed in 2/3 of the cases): single-fit oracle and comparison with the setters-only twin. non-trivial = p >= 2 and >= 2 Fisher iterations observed through the glm.iter hook; distinct by (family, n, p, alpha, tol, weights, design, offsets, first responses)".into();
     rep.assume("the MLE exists: a case is used only if the harness's own damped Fisher scoring converges (for the configured strength and for strength 1) with max |eta| <= 15; others are counted under excluded:*");
     rep.assume("designs with scaled Gram condition number > 1e6 are re-drawn");
     rep.assume("deviance / dispersion-based standard errors / BIC are checked by value only for unweighted and integer-weighted fits (n = rows resp. weight sum); for non-integer weights the property does not fix n, only internal consistency is checked");
@@ -1426,6 +1765,45 @@ pub fn run(cfg: &Cfg, rep: &mut Report) {
         }
         rep.require("refit:offsets=true", 1);
         rep.require("refit:offsets=false", 1);
+    }
+
+    // non-integer responses (stream 4)
+    rep.assume("non-integer responses are inside the quantifier where the family's deviance is defined for them and a textbook model produces them: rates = Poisson counts / exposure with prior weights = exposure (Poisson and quasi-Poisson), phi * Poisson(mu / phi) for the quasi-Poisson family (E y = mu, Var y = phi mu), small positive gamma / exponential responses; the rate formulation counts its residual degrees of freedom from the weight sum (the library's convention for weights, as in the integer-weights regime), so rate vs count+offset standard errors of the quasi family are compared after division by sqrt(dispersion)");
+    let nf = cfg.pick(300, 6000, 10);
+    par_cases(cfg, rep, 4, nf, |i, rng: &mut Rng, rep| fractional_case(i, cfg.miri(), rng, rep));
+    for k in FRACTIONAL {
+        rep.require(&format!("fractional:{}", k), 1);
+        // two cases per kind in a lite run: a fit that returns Err (never a wrong answer) may leave a kind uncompared there
+        if !cfg.lite || k.starts_with("rate:") {
+            rep.require(&format!("fractional:{}:compared", k), 1);
+        }
+    }
+    rep.require("fractional:responses-in-(0,1)", 1);
+    if !cfg.lite {
+        for w in ["none", "random", "integer"] {
+            rep.require(&format!("fractional:w={}", w), 1);
+        }
+        for a in ALPHAS {
+            rep.require(&format!("fractional:alpha={}", a), 1);
+        }
+    }
+    // configuration routes (stream 5)
+    rep.assume("every route the public API offers to one configuration (setters; the public fields family / alpha / tolerance / weights; fields over setters and setters over fields; Clone; fields re-assigned between two fits) is inside the quantifier: the property speaks of the given weights and the configured strength, not of how they were given; each route's fit gets the single-fit oracle and is compared with the setters-only twin within the convergence-scaled limits");
+    let nr = cfg.pick(432, 8640, 12);
+    par_cases(cfg, rep, 5, nr, |i, rng: &mut Rng, rep| route_case(i, cfg.miri(), rng, rep));
+    for r in ROUTES {
+        rep.require(r, 1);
+        if !cfg.lite {
+            rep.require(&format!("{}:ok", r), 1);
+        }
+    }
+    if !cfg.lite {
+        for w in ["none", "random", "integer"] {
+            rep.require(&format!("route:w={}", w), 1);
+        }
+        for f in FAMS {
+            rep.require(&format!("route:{}", f.name()), 1);
+        }
     }
 
     rep.require("glm.iter", 1);
